@@ -332,10 +332,13 @@ def judge(spec, res):
     if o0.get('raised'):
         viol('separate-raised', '%s' % (o0['raised'],))
         return vs
-    if o0['sections'] is not None and ''.join(o0['sections']) != original:
+    as_text = isinstance(o0['sections'], list) and all(isinstance(x, str) for x in o0['sections'])
+    if as_text and ''.join(o0['sections']) != original:
         viol('split-loses-text', 'sections do not concatenate back to the file')
         return vs
-    if o0['sections'] is not None and o0['sections'] != pieces:
+    # (the tool's own list is compared with the construction only if it has the same alternating shape; what the
+    # property really speaks about -- the text presented for each section -- is checked below either way)
+    if as_text and len(o0['sections']) == len(pieces) and o0['sections'] != pieces:
         viol('split-differs-from-construction', 'tool split %r..., built from %r...' % (o0['sections'][:3], pieces[:3]))
         return vs
     if o0['main_code'] != chunk(0):
